@@ -552,7 +552,16 @@ func c19build(w *c19world) {
 	c.Nontrivial = !allOK || defect != 0
 	all := append(append([]*c19target{}, outs...), errs...)
 	fd0 := 0
-	lg, err := cfg.Build()
+	// one time in three the built logger is extended as applications do it:
+	// WrapCore puts another core in front of the configured one. That core
+	// fails every write; the configured destinations still receive every entry.
+	var bopts []zap.Option
+	if g.Chance(3) {
+		bopts = append(bopts, zap.WrapCore(func(cc zapcore.Core) zapcore.Core { return zapcore.NewTee(c19failCore{}, cc) }))
+		c.Describe("built with WrapCore(tee(failing core, configured core))")
+		c.Fault("destination-misbehaves")
+	}
+	lg, err := cfg.Build(bopts...)
 	wantErr := !allOK || defect != 0
 	if (err != nil) != wantErr {
 		c.Fail("C19: Config.Build succeeded on a defective configuration or failed on a sound one", "defect %d, all targets openable=%v: error %v", defect, allOK, err)
@@ -635,6 +644,19 @@ func c19build(w *c19world) {
 	}
 	_ = fd0
 }
+
+// c19failCore accepts every entry and fails to write it.
+type c19failCore struct{}
+
+func (c19failCore) Enabled(zapcore.Level) bool          { return true }
+func (k c19failCore) With([]zapcore.Field) zapcore.Core { return k }
+func (k c19failCore) Check(e zapcore.Entry, ce *zapcore.CheckedEntry) *zapcore.CheckedEntry {
+	return ce.AddCore(e, k)
+}
+func (c19failCore) Write(zapcore.Entry, []zapcore.Field) error {
+	return errors.New("injected failure of a core in front of the configured one")
+}
+func (c19failCore) Sync() error { return nil }
 
 func c19redirect(w *c19world) {
 	c, g := w.c, w.c.G
